@@ -93,6 +93,24 @@ CLAIMS["C09"] = dict(
     design="DESIGN.md section 4, C09",
 )
 
+CLAIMS["C04"] = dict(
+    text=("Deductive proof of the limit and totality clauses of the RTSP framing readers in pkg/base, pkg/conn and the base64 tunnel reader: "
+          "for every byte stream, readBytesLimited returns at most n bytes, Header.unmarshal stores at most 255 entries with keys <= 512 and "
+          "values <= 2048 bytes (assertion at the map update), body.unmarshal allocates only after the declared length passed the 128 KiB "
+          "limit, InterleavedFrame.Unmarshal yields channel 0..255 and payload <= 65535 in a new buffer, Request/Response.Unmarshal bound method, "
+          "status message and body, Conn.Read dispatches without panic, and none of these functions can index, slice or allocate out of range. "
+          "InterleavedFrame.MarshalTo writes the 4-byte header and the payload exactly as specified when the buffer has 4+len(Payload) bytes."),
+    note=TRUST + "bufio.Reader, io.ReadFull and io.Reader.Read are assumed contracts (Peek returns exactly n bytes; reads may change every bufio.Reader and every byte array). Independence from how the stream is split into reads, the tunnels and whole-message round trips are NOT decided.",
+    design="DESIGN.md section 4, C04",
+)
+CLAIMS["C12"] = dict(
+    text=("Deductive proof of the leaf clause the client relies on when a server sends hostile control attributes: description.Media.URL and "
+          "base.ParseURL return a URL or an error, never (nil, nil), for every content base and control string, and Media.URL itself never "
+          "indexes out of range. (The defect this clause exposed is repaired by a fix: commit, see known_findings.json.)"),
+    note=TRUST + "net/url.Parse is an assumed contract. Timeouts, Close, goroutine and socket cleanup and error reporting from later calls are NOT decided (process-level).",
+    design="DESIGN.md section 4, C12",
+)
+
 NOT_APPLICABLE = {
     "C11": "process-level property over channels, goroutines and timeouts (no deadlock, cleanup of goroutines/sessions): not expressible as a contract on one call or one data structure; the leaf validators it relies on are covered under other properties",
     "C13": "liveness and schedule property (Close returns in bounded time under all interleavings, no leaked goroutine or socket, callback ordering): outside sequential contract-based verification",
